@@ -82,6 +82,8 @@ def read_back(app, name, raw_val, secret=None):
     ch.pickle = cp
     try:
         status, line, headers, body, n = call_app(app, env)
+    except (MemoryError, RecursionError, Exception) as e:   # noqa -- e.g. pickle.loads fed with attacker bytes: MemoryError is re-raised by the framework
+        return ('ESCAPED', type(e).__name__), cp.loads_calls
     finally:
         ch.pickle = cp.real
     if status != 200:
